@@ -11,6 +11,7 @@ RULE = ('multi_knee of the 5 detector modules x thresholds t1 (grid + endpoint-l
 ASSUMPTIONS = ['valid curves; t1>=0; t2 >= detector minimum (3; 4 for Menger and the L-method)']
 
 
+@core.safe_case
 def one(ctx, kind, pts, t1, t2, family):
     import kneeliverse.linear_fit as lf
     n = len(pts)
